@@ -7,12 +7,15 @@ EMPTY_COVERAGE = dict(states=0, transitions=0, traces_validated_against_impl=0, 
 OPTS = {"asm": [], "c64": ["-DBACKEND_C64=ON"], "c32": ["-DBACKEND_C32=ON"], "dxor": ["-DBACKEND_DIRECT_XOR=ON"], "generic": ["-DBACKEND_GENERIC=ON"]}
 
 
-def release_lib(be, cc, tr=None):
-    extra = [] if tr is None else ["-DKEY_SHARES=%d" % tr[0], "-DDATA_SHARES=%d" % tr[1], "-DMAX_SHARES=%d" % tr[2]]
+NOPROBE = ["-DHAVE_EXPLICIT_BZERO=OFF", "-DHAVE_MEMSET_S=OFF"]   # the wipe primitive's fall-back branch (a libc with neither explicit_bzero nor memset_s)
+
+
+def release_lib(be, cc, tr=None, more=()):
+    extra = ([] if tr is None else ["-DKEY_SHARES=%d" % tr[0], "-DDATA_SHARES=%d" % tr[1], "-DMAX_SHARES=%d" % tr[2]]) + list(more)
     d = build.cmake_release(OPTS[be] + ["-DMINIMAL=ON"] + extra, tag="c13", cc=cc, targets=("ascon_static",))
     lib = os.path.join(d, "src", "libascon_static.a")
     return dict(lib=lib, inc=["-I" + os.path.join(build.REPO, "src"), "-I" + os.path.join(build.REPO, "src", "ascon"), "-I" + d], dir=d, cflags=["-DHAVE_CONFIG_H"],
-                cc=cc, cxx={"gcc": "g++", "clang": "clang++"}[cc], sanflags=[], desc="cmake Release %s %s%s" % (be, cc, "" if tr is None else " k%dd%dm%d" % tr))
+                cc=cc, cxx={"gcc": "g++", "clang": "clang++"}[cc], sanflags=[], desc="cmake Release %s %s%s%s" % (be, cc, "" if tr is None else " k%dd%dm%d" % tr, " " + " ".join(more) if more else ""))
 
 
 def run(ctx):
@@ -26,10 +29,11 @@ def run(ctx):
     cfgs = [c + (None,) for c in cfgs] + [("asm", "gcc", tr) for tr in ([(2, 1, 2), (3, 2, 3), (2, 2, 4), (3, 3, 3)] if not t else [x for x in build.ALL_TRIPLES if x != build.DEFAULT_TRIPLE])]
     if t:
         cfgs += [("c32", "gcc", (2, 1, 2)), ("c64", "clang", (3, 3, 3))]
-    for be, cc, tr in cfgs:
-        name = "%s-%s-release%s" % (be, cc, "" if tr is None else "-k%dd%dm%d" % tr)
+    cfgs = [c + ((),) for c in cfgs] + [("asm", "gcc", None, NOPROBE), ("c32", "clang", None, NOPROBE)] + ([("generic", "gcc", (3, 3, 3), NOPROBE)] if t else [])
+    for be, cc, tr, more in cfgs:
+        name = "%s-%s-release%s%s" % (be, cc, "" if tr is None else "-k%dd%dm%d" % tr, "-no-explicit_bzero" if more else "")
         try:
-            lib = release_lib(be, cc, tr)
+            lib = release_lib(be, cc, tr, more)
             c = build.build_prog("c13", ["harness/c13.c", "harness/sysrand.c"], lib, opt="-O3", cfg_dep=True)
             cpp = build.build_prog("c13cpp", ["harness/c13.cpp", "harness/sysrand.c"], lib, opt="-O3", cfg_dep=True)
         except build.BuildError as e:
@@ -47,6 +51,6 @@ def run(ctx):
     cov = dict(states=ctx.stats.get("states", 0), transitions=ctx.stats.get("transitions", 0),
                traces_validated_against_impl=ctx.stats.get("traces_validated", 0), object_types=ctx.stats.get("object_types", 0),
                rule="27 C object types (incl. the masked permutation states x2-x4 and the TRNG state) and 16 C++ classes x every operation history of length <= %d over a 4-operation alphabet per type x terminal {free | destructor | clear()} x 2 secret assignments, "
-                    "on the CMake Release library of each configuration in %s" % (maxh, [c[0] + "/" + c[1] + ("" if c[2] is None else "/k%dd%dm%d" % c[2]) for c in cfgs]),
+                    "on the CMake Release library of each configuration in %s" % (maxh, [c[0] + "/" + c[1] + ("" if c[2] is None else "/k%dd%dm%d" % c[2]) + ("/no-explicit_bzero" if c[3] else "") for c in cfgs]),
                exhaustive=True)
     return LEVEL, cov
